@@ -12,7 +12,7 @@ import hashlib, json, os, random, re, shutil, subprocess, time
 import vlib
 
 COMP_SRCS = ["harness/comp/comp.cpp"]
-PLAN = {"C17": (["vbyte", "logseq"], ["vbyte", "logseq", "dacvls"]),
+PLAN = {"C17": (["vbyte", "logseq", "daclayout"], ["vbyte", "logseq", "dacvls"]),
         "C18": (["codes"], ["codes"]),
         "C19": (["succinct"], ["bitseq", "wt"]),
         "C20": (["repair"], ["repair"])}
@@ -20,6 +20,21 @@ _bad_re = re.compile(r'^<<"BAD", "(.*)">>$')
 
 
 def mc(which):
+    if which == "daclayout":
+        body = "SPECIFICATION Spec\nCONSTANTS MaxSeqs = 3\nMaxLen = 3\nSyms = {1, 2}\nLenSlack = %s\nBoundFirst = %s\nINVARIANT AccessOK\nCHECK_DEADLOCK FALSE\n"
+        os.makedirs(os.path.join(vlib.CACHE, "cfg"), exist_ok=True)
+        res = None
+        for slack, bf, want_ok in (("1", "TRUE", True), ("2", "TRUE", False), ("1", "FALSE", False)):
+            cfg = os.path.join(vlib.CACHE, "cfg", "dac_%s_%s.cfg" % (slack, bf))
+            open(cfg, "w").write(body % (slack, bf))
+            r = vlib.tlc("DacLayout", cfg, workers=6, timeout=1800, java_opts=["-Xmx6g"])
+            if want_ok and r.rc != 0:
+                raise RuntimeError("DacLayout.tla (code as it is) fails: rc=%s violated=%s" % (r.rc, r.violated))
+            if not want_ok and r.violated != "AccessOK":
+                raise RuntimeError("vacuity: DacLayout.tla no longer flags the original defect (LenSlack=%s BoundFirst=%s)" % (slack, bf))
+            if want_ok:
+                res = r
+        return res
     cfg = os.path.join(vlib.CACHE, "cfg", "compmc_%s.cfg" % which)
     os.makedirs(os.path.dirname(cfg), exist_ok=True)
     open(cfg, "w").write('SPECIFICATION Spec\nCONSTANT Which = "%s"\nINVARIANT Inv\nCHECK_DEADLOCK FALSE\n' % which)
@@ -109,7 +124,7 @@ def run(pid, tier):
     t0 = time.time()
     V = vlib.Verdict(pid)
     exe = vlib.build_harness("comp", COMP_SRCS, "plain")
-    work = os.path.join(vlib.CACHE, "work", pid)
+    work = os.path.join(vlib.WORK, pid)
     shutil.rmtree(work, ignore_errors=True)
     os.makedirs(work)
     models, traces = PLAN[pid]
